@@ -8,12 +8,14 @@ fresh group, p = the `total_cycles` of the suspended state) completes iff c - p 
  m1  `chunk_run`: resumes the scheduler from the given state (creates a fresh one otherwise), runs it with the budget as a per-call cycle limit, reports Completed(total cycles of
      the terminated script, cycles consumed by THIS call = consumed after - consumed before) for exit code 0, a validation failure for any other exit code, and suspends
      (snapshot of the scheduler) exactly on CyclesExceeded / Pause;
- m2  `verify(max)` over two groups: Ok(c0 + c1) iff c0 + c1 <= max, otherwise an error; never another number;
- m3  `resumable_verify(limit)`: Completed(c0 + c1) iff both groups fit into the limit one after the other; otherwise Suspended at the first group that does not fit, carrying the
+ m2  `verify(max)` over three groups: Ok(c0 + c1 + c2) iff c0 + c1 + c2 <= max, otherwise an error; never another number;
+ m3  `resumable_verify(limit)`: Completed(c0 + c1 + c2) iff all groups fit into the limit one after the other; otherwise Suspended at the first group that does not fit, carrying the
      index of that group, the cycles of the completed groups and the VM state;
- m4  `resume_from_state(state, limit)` from ANY state the code above can produce (any group index, any progress): if it completes it reports c0 + c1 -- the same total as the
+ m4  `resume_from_state(state, limit)` from ANY state the code above can produce (any group index, any progress): if it completes it reports c0 + c1 + c2 -- the same total as the
      uninterrupted run, whatever the chunk sizes were;
- m5  `complete(state, max)`: Ok only with the total c0 + c1.
+ m5  `complete(state, max)`: Ok only with the total c0 + c1 + c2, never beyond the budget, always when the budget covers the total;
+ m6  the task spawned by `chunk_run_with_signal` (pause/resume commands): every `Scheduler::run` is limited to max_cycles minus what the scheduler consumed before, for any command sequence
+     and run outcomes; Stop sends `stopped`; a non-pause outcome is what is sent back.
 
 Outside: the VM and the scheduler (spawn/exec/pause syscalls, multi-VM scheduling, snapshots), i.e. that a real script run satisfies the contract; the signal-driven variants.
 """
@@ -27,6 +29,7 @@ from mir2smt.builtins import deref
 
 CRATES = ["ckb-constant", "ckb-occupied-capacity-core", "ckb-types", "ckb-script"]
 U64 = (1 << 64) - 1
+N_GROUPS = 3
 
 
 def _fields(rel, name):
@@ -57,14 +60,39 @@ def _fn(S, short, nparams):
 class Model:
     """two script groups with uninterrupted costs c0, c1; the contract of one group run as environment handlers"""
 
-    def __init__(self, ctx, fs_fields, cs_variants):
+    def __init__(self, ctx, fs_fields, cs_variants, n=None):
         self.ctx = ctx
-        self.c = [ctx.int("cost_group0", "u64"), ctx.int("cost_group1", "u64")]
+        self.n = n or N_GROUPS
+        self.c = [ctx.int(f"cost_group{k}", "u64") for k in range(self.n)]
         self.fs = fs_fields
         self.cs = cs_variants
         self.calls = []
         self.prog_names = {}
-        self.typeid = [ctx.bool("group0_is_type_id"), ctx.bool("group1_is_type_id")]
+        self.typeid = [ctx.bool(f"group{k}_is_type_id") for k in range(self.n)]
+
+    def total(self):
+        out = 0
+        for c in self.c:
+            out = T.add(out, c.t)
+        return out
+
+    def prefix(self, k):
+        """cost of the groups before index k (k: int or term)"""
+        if isinstance(k, int):
+            out = 0
+            for c in self.c[:k]:
+                out = T.add(out, c.t)
+            return out
+        out = self.prefix(self.n - 1)
+        for j in reversed(range(self.n - 1)):
+            out = T.ite(T.eq(k, j), self.prefix(j), out)
+        return out
+
+    def cost_of(self, k):
+        out = self.c[-1].t
+        for j in reversed(range(self.n - 1)):
+            out = T.ite(T.eq(k, j), self.c[j].t, out)
+        return out
 
     def state_value(self, progress):
         """a FullSuspendedState whose total_cycles is `progress` (the other fields are opaque)"""
@@ -72,7 +100,7 @@ class Model:
 
     def gidx(self, ex, v):
         n = getattr(deref(ex, v), "name", "")
-        m = re.search(r"group(\d)", n)
+        m = re.search(r"group(\d+)", n)
         if not m:
             raise Stop(f"not a script group: {n}")
         return int(m.group(1))
@@ -138,7 +166,7 @@ class Model:
                 if k == len(items) or ex.decide(T.eq(n.t, k)):
                     return E._owned(items[k:])
         return list(E.LOGGING_OFF) + [
-            (E.rx(r"TransactionScriptsVerifier::<.*>::groups$"), lambda ex, c, a, d: E._owned([pair(0), pair(1)])),
+            (E.rx(r"TransactionScriptsVerifier::<.*>::groups$"), lambda ex, c, a, d: E._owned([pair(k) for k in range(self.n)])),
             (E.rx(r"TransactionScriptsVerifier::<.*>::verify_group_with_chunk$"), self.chunk),
             (E.rx(r"TransactionScriptsVerifier::<.*>::verify_script_group$"), self.whole),
             (E.rx(r"TransactionScriptsVerifier::<.*>::hash$"), E.opaque_call()),
@@ -166,12 +194,12 @@ def m2_verify(S):
     fs, cs, vr, ts = _setup(S)
     ctx = S.ctx(unwind=6)
     ctx.uninterpreted_unknown_calls = True
-    M = Model(ctx, fs, cs)
+    M = Model(ctx, fs, cs, n=(5 if S.tier == "thorough" else N_GROUPS))
     ctx.env = M.env()
     mx = ctx.int("max_cycles", "u64")
     ps = S.run(ctx, _fn(S, "verify", 2), [ctx.ref_to(OpaqueV("verifier", "TransactionScriptsVerifier")), mx])
     S.prove(ctx, ob, "no_panic", [], T.not_(cond_of(panics(ps))))
-    tot = T.add(M.c[0].t, M.c[1].t)
+    tot = M.total()
     okc, okv = [], []
     for p in returns(ps):
         v = p.value
@@ -182,7 +210,7 @@ def m2_verify(S):
                 okv.append(T.implies(T.and_(p.cond(), isok), T.eq(as_int(v.payload(0)[0]), tot)))
     S.prove(ctx, ob, "succeeds_iff_the_budget_covers_the_uninterrupted_cost", [], T.iff(T.or_(*okc), T.le(tot, mx.t)))
     S.prove(ctx, ob, "reports_the_sum_of_the_group_costs", [], T.and_(*okv) if okv else False)
-    S.witness(ctx, ob, "reach_exact_budget", [], T.and_(T.eq(tot, mx.t), T.gt(M.c[1].t, 0)))
+    S.witness(ctx, ob, "reach_exact_budget", [], T.and_(T.eq(tot, mx.t), *[T.gt(c.t, 0) for c in M.c]))
 
 
 def _result_kinds(ps, vr):
@@ -215,15 +243,15 @@ def m3_resumable_verify(S):
     fs, cs, vr, ts = _setup(S)
     ctx = S.ctx(unwind=6)
     ctx.uninterpreted_unknown_calls = True
-    M = Model(ctx, fs, cs)
+    M = Model(ctx, fs, cs, n=(5 if S.tier == "thorough" else N_GROUPS))
     ctx.env = M.env()
     lim = ctx.int("limit_cycles", "u64")
     ps = S.run(ctx, _fn(S, "resumable_verify", 2), [ctx.ref_to(OpaqueV("verifier", "TransactionScriptsVerifier")), lim])
-    pre = [T.le(T.add(M.c[0].t, M.c[1].t), U64)]
+    pre = [T.le(M.total(), U64)]
     S.prove(ctx, ob, "no_panic", pre, T.not_(cond_of(panics(ps))))
     ks = _result_kinds(ps, vr)
-    tot = T.add(M.c[0].t, M.c[1].t)
-    fits = T.and_(T.le(M.c[0].t, lim.t), T.le(M.c[1].t, T.sub(lim.t, M.c[0].t)))
+    tot = M.total()
+    fits = T.le(tot, lim.t)         # costs are non-negative: every prefix fits iff the total does
     S.prove(ctx, ob, "no_unexpected_result_shape", [], bool(all(k != "other" for _, k, _ in ks)))
     S.prove(ctx, ob, "completes_iff_both_groups_fit_into_the_limit_one_after_the_other_and_reports_the_sum", pre,
             T.and_(T.iff(T.or_(*[p.cond() for p, k, _ in ks if k == "completed"]), fits), *[T.implies(p.cond(), T.eq(t_, tot)) for p, k, t_ in ks if k == "completed"]))
@@ -237,9 +265,9 @@ def m3_resumable_verify(S):
         if prog is None:
             goals.append(T.not_(p.cond()))
             continue
-        first = T.and_(T.eq(cur.t, 0), T.eq(cyc.t, 0), T.gt(M.c[0].t, lim.t), T.le(prog, lim.t))
-        second = T.and_(T.eq(cur.t, 1), T.eq(cyc.t, M.c[0].t), T.le(M.c[0].t, lim.t), T.gt(M.c[1].t, T.sub(lim.t, M.c[0].t)), T.le(prog, T.sub(lim.t, M.c[0].t)))
-        goals.append(T.implies(p.cond(), T.or_(first, second)))
+        # suspended at group k: the groups before k fit, k does not; the state carries k, the cost of the groups before it and a progress within what was left
+        cases = [T.and_(T.eq(cur.t, k), T.eq(cyc.t, M.prefix(k)), T.le(M.prefix(k), lim.t), T.gt(M.prefix(k + 1), lim.t), T.le(prog, T.sub(lim.t, M.prefix(k)))) for k in range(M.n)]
+        goals.append(T.implies(p.cond(), T.or_(*cases)))
     S.prove(ctx, ob, "suspends_at_the_first_group_that_does_not_fit_with_its_index_the_completed_cycles_and_the_progress", pre, T.and_(*goals) if goals else False)
     S.prove(ctx, ob, "suspended_iff_something_does_not_fit", pre, T.iff(T.or_(*[p.cond() for p, k, _ in ks if k == "suspended"]), T.not_(fits)))
 
@@ -248,8 +276,8 @@ def _arbitrary_state(ctx, M, ts, fs):
     """any TransactionState the code can produce: group index k in {0, 1}, the cycles of the groups before k, progress p < cost of group k"""
     cur = ctx.int("state_current", "usize")
     prog = ctx.int("state_progress", "u64")
-    cyc = T.ite(T.eq(cur.t, 0), 0, M.c[0].t)
-    inv = [T.le(cur.t, 1), T.lt(prog.t, T.ite(T.eq(cur.t, 0), M.c[0].t, M.c[1].t)), T.le(T.add(M.c[0].t, M.c[1].t), U64)]
+    cyc = M.prefix(cur.t)
+    inv = [T.le(cur.t, M.n - 1), T.lt(prog.t, M.cost_of(cur.t)), T.le(M.total(), U64)]
     has = ctx.bool("state_has_vm_state")
     inv.append(T.implies(T.not_(has.t), T.eq(prog.t, 0)))
     vals = {"current": cur, "state": mk_option(has.t, M.state_value(prog.t), "Option<FullSuspendedState>"), "current_cycles": IntV(cyc, "u64"), "limit_cycles": ctx.int("state_limit", "u64")}
@@ -261,14 +289,14 @@ def m4_resume_from_state(S):
     fs, cs, vr, ts = _setup(S)
     ctx = S.ctx(unwind=6)
     ctx.uninterpreted_unknown_calls = True
-    M = Model(ctx, fs, cs)
+    M = Model(ctx, fs, cs, n=(5 if S.tier == "thorough" else N_GROUPS))
     ctx.env = M.env()
     lim = ctx.int("limit_cycles", "u64")
     st, cur, prog, inv = _arbitrary_state(ctx, M, ts, fs)
     ps = S.run(ctx, _fn(S, "resume_from_state", 3), [ctx.ref_to(OpaqueV("verifier", "TransactionScriptsVerifier")), ctx.ref_to(st), lim])
     S.prove(ctx, ob, "no_panic", inv, T.not_(cond_of(panics(ps))))
     ks = _result_kinds(ps, vr)
-    tot = T.add(M.c[0].t, M.c[1].t)
+    tot = M.total()
     S.prove(ctx, ob, "no_unexpected_result_shape", [], bool(all(k != "other" for _, k, _ in ks)))
     S.prove(ctx, ob, "a_completed_resumption_reports_the_uninterrupted_total_whatever_the_chunking", inv, T.and_(*[T.implies(p.cond(), T.eq(t_, tot)) for p, k, t_ in ks if k == "completed"]) if any(k == "completed" for _, k, _ in ks) else False)
     goals = []
@@ -282,10 +310,10 @@ def m4_resume_from_state(S):
             goals.append(T.not_(p.cond()))
             continue
         # the new state is again one the invariant describes: index, cycles of the completed groups, progress below the group's cost
-        goals.append(T.implies(p.cond(), T.and_(T.le(c2.t, 1), T.ge(c2.t, cur.t), T.eq(y2.t, T.ite(T.eq(c2.t, 0), 0, M.c[0].t)), T.lt(p2, T.ite(T.eq(c2.t, 0), M.c[0].t, M.c[1].t)))))
+        goals.append(T.implies(p.cond(), T.and_(T.le(c2.t, M.n - 1), T.ge(c2.t, cur.t), T.eq(y2.t, M.prefix(c2.t)), T.lt(p2, M.cost_of(c2.t)))))
     S.prove(ctx, ob, "a_suspended_resumption_yields_a_state_of_the_same_kind_never_going_back", inv, T.and_(*goals) if goals else True)
-    rest = T.sub(T.ite(T.eq(cur.t, 0), M.c[0].t, M.c[1].t), prog.t)
-    fits = T.and_(T.le(rest, lim.t), T.or_(T.eq(cur.t, 1), T.le(M.c[1].t, T.sub(lim.t, rest))))
+    # what is left to run: the rest of the suspended group and every group after it
+    fits = T.le(T.sub(T.sub(M.total(), M.prefix(cur.t)), prog.t), lim.t)
     S.prove(ctx, ob, "completes_iff_the_rest_fits_into_the_limit", inv, T.iff(T.or_(*[p.cond() for p, k, _ in ks if k == "completed"]), fits))
     S.witness(ctx, ob, "reach_completed_from_the_middle_of_group0", inv, T.and_(T.eq(cur.t, 0), T.gt(prog.t, 0), T.or_(*[p.cond() for p, k, _ in ks if k == "completed"])))
 
@@ -295,13 +323,13 @@ def m5_complete(S):
     fs, cs, vr, ts = _setup(S)
     ctx = S.ctx(unwind=6)
     ctx.uninterpreted_unknown_calls = True
-    M = Model(ctx, fs, cs)
+    M = Model(ctx, fs, cs, n=(5 if S.tier == "thorough" else N_GROUPS))
     ctx.env = M.env()
     mx = ctx.int("max_cycles", "u64")
     st, cur, prog, inv = _arbitrary_state(ctx, M, ts, fs)
     ps = S.run(ctx, _fn(S, "complete", 3), [ctx.ref_to(OpaqueV("verifier", "TransactionScriptsVerifier")), ctx.ref_to(st), mx])
     S.prove(ctx, ob, "no_panic", inv, T.not_(cond_of(panics(ps))))
-    tot = T.add(M.c[0].t, M.c[1].t)
+    tot = M.total()
     okc, okv = [], []
     for p in returns(ps):
         v = p.value
@@ -311,7 +339,7 @@ def m5_complete(S):
             if v.payload(0):
                 okv.append(T.implies(T.and_(p.cond(), isok), T.eq(as_int(v.payload(0)[0]), tot)))
     S.prove(ctx, ob, "a_successful_completion_reports_the_uninterrupted_total", inv, T.and_(*okv) if okv else False)
-    S.prove(ctx, ob, "completion_never_succeeds_beyond_the_budget", inv, T.implies(T.or_(*okc), T.le(tot, mx.t)), small=[T.le(mx.t, 40), T.le(M.c[0].t, 40), T.le(M.c[1].t, 40)])
+    S.prove(ctx, ob, "completion_never_succeeds_beyond_the_budget", inv, T.implies(T.or_(*okc), T.le(tot, mx.t)), small=[T.le(mx.t, 40)] + [T.le(c.t, 40) for c in M.c])
     S.prove(ctx, ob, "completion_succeeds_whenever_the_budget_covers_the_total", inv + [T.le(tot, mx.t)], T.or_(*okc))
 
 
@@ -409,18 +437,157 @@ def _variants_vm():
 
 OBLIGATIONS = [m1_chunk_run, m2_verify, m3_resumable_verify, m4_resume_from_state, m5_complete]
 
+
+def m6_signal_child_budget(S):
+    """the task `chunk_run_with_signal` spawns to run the VM under pause/resume commands (the path the node's transaction pool uses), executed as a coroutine body with the command
+    channel, the scheduler and the result channel as environment: for ANY sequence of commands (Suspend / Resume / Stop, up to 4 loop rounds) and ANY outcome of each run
+    (terminated / paused / other error) every `Scheduler::run` is limited to what is left of the budget -- max_cycles minus the cycles the scheduler consumed before that run -- so
+    that the scheduler never consumes more than max_cycles however often it is paused; a Stop command sends the `stopped` error without running; what a run returned (other than a
+    pause) is what is sent back"""
+    from mir2smt.exec import CoroV
+    ob = "C05.m6"
+    fs, cs, vr, ts = _setup(S)
+    c = [f for f in S.prog.funcs if f.kind == "fn" and re.search(r"chunk_run_with_signal::\{closure#0\}::\{closure#\d+\}$", f.name) and len(f.params) == 2 and "async block" in f.params[0][1]]
+    if len(c) != 1:
+        raise Inconclusive(f"child task of chunk_run_with_signal: {len(c)} candidates")
+    f = c[0]
+    ix = {}
+    for name, place in f.debug.items():
+        m_ = re.match(r"\(\(\*\(_1\.0: .*?\)\)\.(\d+): ", place)
+        if m_:
+            ix[name] = int(m_.group(1))
+    if not all(k in ix for k in ("child_rx", "child_pause", "finish_tx", "scheduler", "max_cycles")):
+        raise Inconclusive(f"child task upvars: {ix}")
+    cmds = _variants("script/src/types.rs", "ChunkCommand")
+    if sorted(cmds) != ["Resume", "Stop", "Suspend"]:
+        raise Inconclusive(f"ChunkCommand variants: {cmds}")
+    rm = _variants("script/src/types.rs", "RunMode")
+    from mir2smt.srcinfo import field_index
+    tr = field_index("script/src/types.rs", "TerminatedResult")
+    vme = _variants_vm()
+    ROUNDS = 7 if S.tier == "thorough" else 4
+    ctx = S.ctx(unwind=ROUNDS + 1)
+    ctx.uninterpreted_unknown_calls = True
+    mx = ctx.int("max_cycles", "u64")
+    cmd = [ctx.int(f"command_{k}", "u8") for k in range(ROUNDS + 2)]
+    outcome = [ctx.int(f"run_outcome_{k}", "u8") for k in range(ROUNDS + 2)]          # 0 terminated, 1 paused, 2 cycles exceeded, 3 other error
+    cons = [ctx.int(f"consumed_after_run_{k}", "u64") for k in range(ROUNDS + 2)]
+    runs, sends, runs_nb = [], [], []
+
+    def n_of(ex, tag):
+        return len([e for e in ex.log if e[0] == "c05" and e[1] == tag])
+
+    def consumed_now(ex):
+        k = n_of(ex, "run")
+        return 0 if k == 0 else cons[k - 1].t
+
+    def borrow(ex, c_, a, d):
+        k = n_of(ex, "borrow")
+        ex.log.append(("c05", "borrow", [k], list(ex.pc)))
+        if k >= len(cmd):
+            raise Stop("more loop rounds than modelled")
+        for i in range(3):
+            if i == 2 or ex.decide(T.eq(cmd[k].t, i)):
+                return ex.ctx.ref_to(EnumV(i, (), "ChunkCommand"))
+
+    def run(ex, c_, a, d):
+        k = n_of(ex, "run")
+        mode = deref(ex, a[1]) if isinstance(a[1], RefV) else a[1]
+        if not (isinstance(mode, EnumV) and mode.disc == rm.index("Pause")):
+            raise Stop(f"run mode is not Pause: {mode}")
+        lim = mode.payload(mode.disc)[1]
+        before = consumed_now(ex)
+        runs.append((k, lim.t, before, list(ex.pc)))
+        runs_nb.append(n_of(ex, "borrow"))
+        ex.log.append(("c05", "run", [k], list(ex.pc)))
+        if k >= len(cons):
+            raise Stop("more runs than modelled")
+        okv = AggV(tuple((ex.ctx.int(f"exit_code_{k}", "i8") if n == "exit_code" else cons[k]) for n, _ in sorted(tr.items(), key=lambda kv: kv[1])), "TerminatedResult")
+        if ex.decide(T.eq(outcome[k].t, 0)):
+            return mk_result(True, okv, OpaqueV("vm_error", "VMInternalError"), d)
+        if ex.decide(T.eq(outcome[k].t, 1)):
+            return mk_result(False, okv, EnumV(vme["Pause"], (), "VMInternalError"), d)
+        if ex.decide(T.eq(outcome[k].t, 2)):
+            return mk_result(False, okv, EnumV(vme["CyclesExceeded"], (), "VMInternalError"), d)
+        return mk_result(False, okv, EnumV(vme["Unexpected"], ((vme["Unexpected"], (OpaqueV("msg", "String"),)),), "VMInternalError"), d)
+
+    def send(ex, c_, a, d):
+        v = a[1]
+        kind = "?"
+        if isinstance(v, EnumV) and isinstance(v.disc, int):
+            if v.disc == 0:
+                kind = "ok"
+            else:
+                e = v.payload(1)[0]
+                if isinstance(e, AggV) and e.ty == "External" and len(e.fields) == 1:       # a foreign tuple-variant constructor is executed as an aggregate named after the variant
+                    kind = "err:External(" + str(getattr(e.fields[0], "s", "?")).strip('"') + ")"
+                else:
+                    kind = "err:" + (next((n for n, i in vme.items() if isinstance(e, EnumV) and i == e.disc), None) or getattr(e, "name", None) or str(e)[:80])
+        sends.append((n_of(ex, "run"), kind, list(ex.pc), n_of(ex, "borrow")))
+        ex.log.append(("c05", "send", [kind], list(ex.pc)))
+        return mk_result(True, UNIT, OpaqueV("unsent", "?"), d)
+    ready_ok = lambda ex, c_, a, d: EnumV(0, ((0, (mk_result(True, UNIT, OpaqueV("recv_error", "RecvError"), "Result<(), RecvError>"),)),), d)
+    ctx.env = list(E.LOGGING_OFF) + [
+        (E.rx(r"watch::Receiver::<.*>::mark_changed$"), lambda ex, c_, a, d: UNIT),
+        (E.rx(r"watch::Receiver::<.*>::changed$"), lambda ex, c_, a, d: OpaqueV("changed_future", d)),
+        (E.rx(r" as IntoFuture>::into_future$|Pin::<.*>::new_unchecked$"), lambda ex, c_, a, d: a[0]),
+        (E.rx(r" as Future>::poll$"), ready_ok),
+        (E.rx(r"watch::Receiver::<.*>::borrow$"), lambda ex, c_, a, d: OpaqueV("borrowed", d)),
+        (E.rx(r"watch::Ref<.*> as Deref>::deref$"), borrow),
+        (E.rx(r"Pause as Clone>::clone$"), lambda ex, c_, a, d: OpaqueV("pause_handle", d)),
+        (E.rx(r"Scheduler::<.*>::run$"), run),
+        (E.rx(r"Scheduler::<.*>::consumed_cycles$"), lambda ex, c_, a, d: IntV(consumed_now(ex), "u64")),
+        (E.rx(r"oneshot::Sender::<.*>::send$"), send),
+        (E.rx(r"^External$"), lambda ex, c_, a, d: EnumV(vme["External"], ((vme["External"], (a[0],)),), "VMInternalError")),
+        (E.rx(r"<&str as Into<.*String>>::into$"), lambda ex, c_, a, d: a[0]),
+    ]
+    ups = {ix["child_rx"]: OpaqueV("child_rx", "Receiver"), ix["child_pause"]: OpaqueV("child_pause", "Pause"), ix["finish_tx"]: OpaqueV("finish_tx", "Sender"),
+           ix["scheduler"]: OpaqueV("scheduler", "Scheduler"), ix["max_cycles"]: mx}
+    ps = S.run(ctx, f, [AggV((ctx.ref_to(CoroV(0, tuple(sorted(ups.items())), (), "coroutine")),), "Pin"), ctx.ref_to(OpaqueV("task_context", "Context"))], allow=("return", "panic", "unwind"))
+    # contract of the scheduler: the consumed-cycle counter never decreases and one run consumes at most the limit it was given
+    contract = []
+    for k, lim, before, pc in runs:
+        contract.append(T.implies(T.and_(*pc), T.and_(T.le(before, cons[k].t), T.le(cons[k].t, T.add(before, lim)))))
+    dom = [T.le(c_.t, 2) for c_ in cmd] + [T.le(o.t, 3) for o in outcome]
+    S.prove(ctx, ob, "no_panic", dom + contract, T.not_(cond_of(panics(ps))))
+    S.prove(ctx, ob, "some_run_happens", [], bool(len(runs) > 0))
+    S.prove(ctx, ob, "every_run_is_limited_to_what_is_left_of_the_budget", dom + contract, T.and_(*[T.implies(T.and_(*pc), T.eq(lim, T.sub(mx.t, before))) for k, lim, before, pc in runs]) if runs else False,
+            small=[T.le(mx.t, 20)] + [T.le(c_.t, 20) for c_ in cons])
+    S.prove(ctx, ob, "the_scheduler_never_consumes_more_than_the_budget_however_often_it_is_paused", dom + contract, T.and_(*[T.implies(T.and_(*pc), T.le(cons[k].t, mx.t)) for k, lim, before, pc in runs]) if runs else False,
+            small=[T.le(mx.t, 20)] + [T.le(c_.t, 20) for c_ in cons])
+    # Stop: the `stopped` error is sent, and no run follows on that path; a non-pause outcome of a run is sent back as it is
+    kinds = {k_ for _, k_, _, _ in sends}
+    want = {"ok": 0, "err:CyclesExceeded": 2, "err:Unexpected": 3}
+    goals = []
+    for nr, k_, pc, nb in sends:
+        if k_ in want:
+            goals.append(T.implies(T.and_(*pc), T.eq(outcome[nr - 1].t, want[k_])) if nr >= 1 else T.not_(T.and_(*pc)))
+        elif k_ == "err:External(stopped)":
+            goals.append(T.implies(T.and_(*pc), T.eq(cmd[nb - 1].t, cmds.index("Stop"))) if nb >= 1 else T.not_(T.and_(*pc)))
+    S.prove(ctx, ob, "what_is_sent_back_is_the_outcome_of_the_last_run_or_stopped_on_a_stop_command", dom + contract, T.and_(*goals) if goals else False)
+    # a run happens only on a Resume command; Suspend waits for the next command
+    S.prove(ctx, ob, "a_run_follows_only_a_resume_command", dom + contract, T.and_(*[T.implies(T.and_(*pc), T.eq(cmd[nb - 1].t, cmds.index("Resume")) if nb >= 1 else False) for (k, lim, before, pc), nb in zip(runs, runs_nb)]) if runs else False)
+    S.prove(ctx, ob, "results_sent_back_are_ok_the_runs_error_or_stopped", [], bool(kinds and kinds <= {"ok", "err:External(stopped)", "err:CyclesExceeded", "err:Unexpected"} and {"ok", "err:External(stopped)", "err:CyclesExceeded"} <= kinds), extra={"note": str(sorted(kinds))})
+    S.witness(ctx, ob, "reach_second_run_after_a_pause", dom + contract, T.or_(*[T.and_(*pc) for k, _, _, pc in runs if k == 1]) if any(k == 1 for k, *_ in runs) else False)
+    S.witness(ctx, ob, "reach_third_run", dom + contract, T.and_(T.or_(*[T.and_(*pc) for k, _, _, pc in runs if k == 2]), T.gt(cons[1].t, cons[0].t), T.gt(cons[0].t, 0)) if any(k == 2 for k, *_ in runs) else False)
+
+
+OBLIGATIONS = OBLIGATIONS + [m6_signal_child_budget]
+
 ENGINE = "M"
 LEVEL = "other"
-EXPLANATION = ("The transaction-level cycle accounting of ckb-script (verify, resumable_verify, resume_from_state, complete) is executed symbolically from its MIR over two script groups with symbolic "
+EXPLANATION = ("The transaction-level cycle accounting of ckb-script (verify, resumable_verify, resume_from_state, complete) is executed symbolically from its MIR over three script groups with symbolic "
                "costs, budgets and suspension points; one script-group run is an environment symbol obeying the stated contract (completes iff the remaining cost fits into the budget, else "
-               "suspends with the progress made). The solver decides that totals and verdicts do not depend on how the run was chunked.")
-BOUNDS = {"groups": "2 script groups, any costs / budgets / progress (u64)", "outside": "the CKB-VM and the scheduler (that a real script run satisfies the contract), pause signals, spawn/exec"}
-ASSUMPTIONS = ["contract of one script-group run: uninterrupted cost c; with budget b from progress p it completes iff c - p <= b reporting (used = c, consumed = c - p), else suspends with progress p + b",
-               "the sum of the two group costs fits u64"]
+               "suspends with the progress made). The solver decides that totals and verdicts do not depend on how the run was chunked. The child task of chunk_run_with_signal is executed as a coroutine body with the command channel and the scheduler as environment.")
+BOUNDS = {"groups": "3 script groups (thorough: 5), any costs / budgets / progress (u64)", "signal_task": "up to 4 command rounds (thorough: 7), any command sequence and run outcomes", "outside": "the CKB-VM and the scheduler (that a real script run satisfies the contract), the tokio select loop of the parent task, spawn/exec"}
+ASSUMPTIONS = ["contract of one script-group run: uninterrupted cost c; with budget b from progress p it completes iff c - p <= b reporting (used = c, consumed = c - p), else suspends with a recorded progress p' with p <= p' <= p + b",
+               "contract of the scheduler in the signal task: the consumed-cycle counter never decreases and one run consumes at most the limit it was given",
+               "the sum of the group costs fits u64"]
 TRUSTED = []
 LEVEL_TEXT = ("Relative to a stated contract of a single script-group run (the VM is not executed), decided on the real MIR: the uninterrupted verification succeeds iff the budget covers the sum of the "
               "group costs and reports that sum; a resumable run suspends at the first group that does not fit, and resuming from any state the code can produce, with any chunk size, reports the same "
-              "total when it completes. The VM, the scheduler and the signal-driven variants are outside and not claimed.")
-LEVEL_NOTE = "Partial claim (cycle accounting around the VM, relative to a run contract). The VM interpreter, scheduler, syscalls, pause signals: outside."
+              "total when it completes; completing a suspended verification never succeeds beyond the budget; the task that runs the VM under pause/resume commands limits every run to what is left of the budget, "
+              "for any command sequence up to the stated number of rounds. The VM, the scheduler and the tokio select loop of the parent task are outside and not claimed.")
+LEVEL_NOTE = "Partial claim (cycle accounting around the VM, relative to a run contract; 3 groups quick / 5 thorough; signal task 4 / 7 rounds). The VM interpreter, scheduler, syscalls, spawn trees, the parent select loop: outside."
 TECHNIQUE = "symbolic execution of rustc MIR -> integer-theory SMT (cvc5 + z3), one script-group run as an environment contract"
 DESIGN_REF = "DESIGN.md section 4 (C05)"
